@@ -297,7 +297,13 @@ fn roundtrip<F: Fl + serde::Serialize + serde::de::DeserializeOwned>(reg: &Reg<F
             // and through a positional format; the state that continues the history is the one restored from it
             let toks = crate::poswire::to_tokens($s).map_err(|e| format!("positional serialize: {}", e))?;
             let pback = crate::poswire::from_tokens(&toks).map_err(|e| format!("positional deserialize: {}", e))?;
-            let eq = &back == $s && &pback == $s;
+            // ... and through a self-describing tree whose maps are SORTED BY KEY (serde_json::Value without preserve_order;
+            // what toml / BTreeMap-backed formats do): fields arrive in an order that is not the declaration order
+            let tree = serde_json::to_value($s).map_err(|e| format!("tree serialize: {}", e))?;
+            let tback = serde_json::from_value(tree).map_err(|e| format!("tree deserialize: {}", e))?;
+            // value equality and field-by-field identity (the rendering of every restored copy is that of the original)
+            let same = |x: &_| serde_json::to_string(x).map(|t| t == js).unwrap_or(false);
+            let eq = &back == $s && &pback == $s && &tback == $s && same(&back) && same(&pback) && same(&tback);
             let back = if eq { pback } else { back };
             Ok(($variant(back), eq, js))
         }};
